@@ -18,11 +18,13 @@ META = {
                   "minimal-disruption property on every step, and emits the result demanded for every key class x 4 operations x RF x "
                   "zone-awareness; every one is replayed on a real ring.Ring (two embeddings, every concrete key of every class, Get and "
                   "GetWithOptions with buffers of capacity 0, 1 and GetBufferSize) inside a synctest bubble so heartbeat ages are exact. "
+                  "Also replayed: ring.Config.ExcludedZones (universes q_excl / t_excl), a per-call replication factor above the configured one "
+                  "(refused by the default strategy) and, in the thorough tier, the ignore-unhealthy strategy with expanded replication. "
                   "In the other direction seeded random rings (<=40 instances x <=128 tokens, 0-5 zones, all states) are rank-compressed, "
                   "logged and accepted by TLC only if every logged result equals the specification's.",
     "level_note": "Exhaustive only within the listed universes (names in coverage.universes); larger rings are sampled, not enumerated. "
                   "Trusted: TLC, the key-class embedding and rank compression, the synctest clock, renaming symmetry of instance and zone "
-                  "names, the default replication strategy (per-call RF above the configured one is rejected by it and not modelled).",
+                  "names, heartbeat classes concretised for a clock on a whole second and inside a second.",
     "technique": "TLA+ specification (RingLookup.tla) model-checked by TLC; TLC-generated cases replayed into the real code; "
                  "traces recorded from the real code validated by TLC",
     "design_ref": "DESIGN.md 2 C01",
